@@ -41,7 +41,7 @@ func statsToSimkit(w *chainsim.World) {
 	for _, k := range keys {
 		switch k {
 		case "crash_inside_step", "byz_serving_unlinked_block", "byz_lying_common_block", "gossip_topic_blackout", "gossip_dropped", "gossip_duplicated", "gossip_cut", "rpc_timeout", "rpc_error", "rpc_truncated", "rpc_bitflip", "crash", "restart", "partition", "heal", "ban",
-			"clock_skew", "clock_jump_backwards", "clock_jump_forwards", "node_stalled", "rpc_to_stalled_node", "gossip_held_for_stalled_node":
+			"clock_skew", "clock_jump_backwards", "clock_jump_forwards", "node_stalled", "rpc_to_stalled_node", "gossip_held_for_stalled_node", "node_muted", "gossip_from_muted_node_lost":
 			simkit.FaultN(k, w.S.Stats[k])
 		default:
 			simkit.Count(k, int64(w.S.Stats[k]))
